@@ -211,6 +211,11 @@ def check_tree_case(rec, case):
         rec.violation("tree-exception", case, {"where": "constructor", "exception": repr(exc),
                                                "trace": traceback.format_exc()[-800:]})
         return
+    if container == "array" and typ != "datetime":
+        # call history: the caller's interval array is a work buffer that is refilled right after the tree
+        # was built - the tree answers for the intervals it was built from
+        rec.count("tree.built_from_buffer_refilled_afterwards")
+        stored[...] = stored[::-1].copy() + (stored.max() - stored.min() + 7)
     nontriv = unsorted_both(case["intervals"])
     # -- query ---------------------------------------------------------------
     rec.ev(len(qs) + len(pts))  # one evaluation per query interval / query point answered by the real tree
